@@ -135,10 +135,6 @@ Fixpoint buf_last (k : bytes) (l : list bop) : option (option bytes) :=
 
 (* ---------- client entry points ---------- *)
 
-Definition marker_key : bytes :=    (* "__compact_marker__" *)
-  [95;95;99;111;109;112;97;99;116;95;109;97;114;107;101;114;95;95].
-Definition marker_val : bytes := [102;111;114;99;101].    (* "force" *)
-
 Inductive cop :=
 (* embedded API: EngineFacade *)
 | CPut (k v : bytes) | CDel (k : bytes) | CBatch (ops : list bop)
@@ -153,7 +149,7 @@ Inductive cop :=
 (* an entry point the model has no constructor for, described by its row of gen/Api.v *)
 | CGeneric (mutates guarded : bool).
 
-(* one-shot transaction of BatchWrite / Compact: begin(false), writes, commit *)
+(* one-shot transaction of BatchWrite (and the empty one of Compact): begin(false), writes, commit *)
 Definition oneshot (n : node) (ops : list bop) : node * res :=
   if ro n then
     (* forced read-only: shares the lock; the first write fails, the transaction is rolled back *)
@@ -179,7 +175,14 @@ Definition step_client (n : node) (c : cop) : node * res :=
   | CTxRollback h => tx_rollback_h n h
   | SBatch [] => (n, ROk)                  (* returns before a transaction is begun *)
   | SBatch ops => oneshot n ops
-  | SCompact force => oneshot n (if force then [(marker_key, Some marker_val)] else [])
+  | SCompact force =>
+      (* an empty read-write transaction (waits for the lock like a writer), then for force a
+         memtable flush through the engine; no key is written (/repo 2b4302e) *)
+      let x := oneshot n [] in
+      match snd x with
+      | ROk => ((if force then set_eng (fst x) (flush (eng (fst x))) else fst x), ROk)
+      | r => (fst x, r)
+      end
   | CGeneric mutates guarded =>
       if negb mutates then (n, ROk)
       else if guarded && ro n then (n, RRoErr)
@@ -212,22 +215,25 @@ Definition node_scan (n : node) (univ : list bytes) : list (bytes * bytes) :=
 Inductive rop :=
 | RPutE (k v : bytes)        (* wal.OpTypePut *)
 | RDelE (k : bytes)          (* wal.OpTypeDelete *)
-| RMergeE (k v : bytes)      (* wal.OpTypeMerge: applied as a put *)
+| RMergeE (k v : bytes)      (* wal.OpTypeMerge: accepted, no effect (there is no merge operator; the
+                                primary's write path and recovery give such an entry no effect
+                                either — /repo 8b33636) *)
 | RBadE                      (* any other entry type *)
 | RSync.                     (* EngineApplier.Sync = FlushImMemTables *)
 
 (* what an applied entry does to the data of a bare engine *)
 Definition apply_eng (e : st) (r : rop) : st * res :=
   match r with
-  | RPutE k v | RMergeE k v => wr (put e k v)
+  | RPutE k v => wr (put e k v)
   | RDelE k => wr (del e k)
+  | RMergeE _ _ => (e, ROk)
   | RBadE => (e, RBadType)
   | RSync => (flush e, ROk)
   end.
 
 (* EngineApplier.Apply: one facade call in every branch.
-   read-only engine: PutInternal (put and, since /repo 574c666, merge) / DeleteInternal — the
-   flag is neither read nor written.  writable engine: engine.Put / engine.Delete. *)
+   read-only engine: PutInternal / DeleteInternal — the flag is neither read nor written.
+   writable engine: engine.Put / engine.Delete. A merge entry returns nil without a call. *)
 Definition step_repl (n : node) (r : rop) : node * res :=
   let x := apply_eng (eng n) r in
   (set_eng n (fst x), snd x).
